@@ -35,6 +35,10 @@ def paths(S, s, runtime):
         ("string-range", ["v5 := %s" % S, "for i5, c5 := range v5 {", '\tprint("[" + c5 + "]")', "}"], ["[" + c + "]" for c in chars]),
         ("write-read", ['write("f.txt", %s)' % S, 'print(read("f.txt"))'], [s.rstrip("\n")] if s.endswith("\n") else [s]),
         ("multi-print", ['print("a", %s, "b")' % S], ["a " + s + " b"]),
+        # the same value at nesting depth two and inside a function body (round 14: C08-G indented the script per nesting level, the
+        # continuation lines of a literal with a line break included)
+        ("nested", ["if len(\"x\") == 1 {", "\tfor i9 := 0; i9 < 1; i9++ {", "\t\tprint(%s)" % S, "\t\tv9 := %s" % S, "\t\tprint(len(v9), v9 == %s)" % S, "\t}", "}"],
+         [s, "%d 1" % len(s.encode())]),
     ] + ([("file-name", ['write(%s, "c8")' % S, 'print(exists(%s), read(%s))' % (S, S)], ["1 c8"])] if valid_file_name(s) else [])
 
 
